@@ -156,6 +156,11 @@ func cmdCheck(argv []string) int {
 		rp := writeReplayText(*prop, o, "a field declared immutable in the contracts (unknown code is assumed not to change it) is assigned outside a constructor: "+b)
 		immutableBroken = append(immutableBroken, fmt.Sprintf("VIOLATION property=%s replay=%s obligation=%s %s no-failing-input-found", *prop, rp, o.Name, b))
 	}
+	for _, b := range eng.checkNonNil() {
+		o := &Obligation{Name: "nonnil#" + sanitize(b), Kind: "nonnil", Fn: "nonnil", Pos: b, Desc: "field declared nonnil is not established by a constructor: " + b, Status: "syntactic"}
+		rp := writeReplayText(*prop, o, "a pointer field declared nonnil in the contracts (loads of it are assumed non-nil) is not set by every constructor: "+b)
+		immutableBroken = append(immutableBroken, fmt.Sprintf("VIOLATION property=%s replay=%s obligation=%s %s no-failing-input-found", *prop, rp, o.Name, b))
+	}
 	var reports []FuncReport
 	for _, fr := range spec.Functions {
 		if *only != "" && fr.Key != *only {
